@@ -358,8 +358,9 @@ for _pid in ("C09", "C16"):
 # its own. -Zmiri-deterministic-floats: the interpreter otherwise perturbs every cos() by a random
 # ulp, and the monitors compare a Window's values across calls bit for bit.
 PROPS["C20"]["stages"].append({"name": "miri32", "build": "miri32", "bin": "c20", "shards": {"quick": 8, "thorough": 16}, "miriflags": "-Zmiri-deterministic-floats", "timeout": {"quick": 1500, "thorough": 3600}})
-# C04 / C05 (adaptor trees: delay lengths, take counts, exhaustion bookkeeping in usize): lean 32-bit stages
-for _pid, _bin in (("C04", "c04"), ("C05", "c05")):
+# C05 (adaptor trees: delay lengths, take counts, exhaustion bookkeeping in usize): a lean 32-bit stage
+# (the same for C04 was tried and withdrawn: one shard did not finish within 15 minutes, see DESIGN 14)
+for _pid, _bin in (("C05", "c05"),):
     PROPS[_pid]["stages"].append({"name": "miri32", "build": "miri32", "bin": _bin, "shards": {"quick": 8, "thorough": 16}, "timeout": {"quick": 1500, "thorough": 3600}})
 for _pid, _p in PROPS.items():
     if not any(s["build"] == "release" for s in _p["stages"]):
@@ -397,10 +398,19 @@ _M32 = {
     "C15": " A 32-bit build of dasp is executed too (Miri, i686 target): construction / From on boundary and out-of-range backing values and the operators on a 14 x 14 (quick) / 38 x 38 (thorough) value set, all eight types.",
 }
 _M32["C20"] = " A 32-bit build of dasp is executed too (Miri, i686 target): every (L, bin, hop) with L <= 6 (quick) / 9 (thorough), hops around the 8/16/24/31-bit boundaries and the top of the 32-bit range, short Window iterators."
-_M32["C04"] = " A 32-bit build of dasp is executed too (Miri, i686 target): every single adaptor with every parameter variant, a seventh of the adaptor pairs and a few random trees, frame types in rotation."
 _M32["C05"] = " A 32-bit build of dasp is executed too (Miri, i686 target): iterator-backed signals of 0..=4 frames, single adaptors over leaves of lengths 0, 1, 3, 6 (thinned), a few random trees."
 for _pid in ("C03", "C06", "C09", "C10", "C12", "C14", "C16"):
     _M32[_pid] = " The interpreter stage runs a second time as a 32-bit build of dasp (Miri, i686 target)."
+_W32 = {
+    "C03": " In that build the sample-level sweep runs for the ten formats wider than 16 bits (values on both sides of 2^31 and 2^32).",
+    "C06": " In that build: real buffers of 32 769 ... 70 000 elements, ten rotations and ~25 boundary indices each (half of the machine word).",
+    "C10": " In that build: one-byte-sample slices of ten lengths from 2^27 to 1.5 * 2^30, ten widths, shared / mutable / boxed.",
+    "C12": " In that build: one branch leading by 65 536 / 65 537 (thorough: 131 072) frames, every step checked.",
+    "C14": " In that build: refills of capacities 65 537, 92 700, 185 400 (thorough: up to 262 147) with a counting source.",
+    "C20": " In that build also slices of 66 000 ... 131 075 frames with nth(n) / step_by(n) where n * hop = 2^32 + small (positions beyond the schedule that wrap the word onto a valid start).",
+}
+for _pid, _t in _W32.items():
+    _M32[_pid] += _t
 for _pid, _t in _M32.items():
     _ADDED[_pid] = _ADDED.get(_pid, "Also:") + _t
     if "32-bit" not in PROPS[_pid]["technique"]:
